@@ -424,4 +424,12 @@ def runHistory (p : Proc) : List MolInput → List (Outcome × Int)
   | [] => []
   | m :: ms => (procStep p m).2 :: runHistory (procStep p m).1 ms
 
+/-- several processor objects — which may have been given the SAME criterion object or selector — applied in any
+interleaving to molecules: the i-th object is used and put back as it is after each application -/
+def runInterleaved (ps : List Proc) : List (Nat × MolInput) → List (Outcome × Int)
+  | [] => []
+  | im :: rest =>
+      (procStep (ps.getD im.1 default) im.2).2 ::
+        runInterleaved (ps.set im.1 (procStep (ps.getD im.1 default) im.2).1) rest
+
 end C15
